@@ -241,6 +241,14 @@ func (s *c09) pickItem(r *kit.Rng) []byte {
 }
 
 func (s *c09) pickHash(r *kit.Rng) []byte {
+	// distinguished values: the null outpoint's hash (coinbase inputs spend
+	// 00..00:ffffffff), all-ones
+	switch r.Intn(12) {
+	case 0:
+		return make([]byte, 32)
+	case 1:
+		return bytes.Repeat([]byte{0xff}, 32)
+	}
 	for _, it := range s.items {
 		if len(it) == 32 && r.Chance(1, 2) {
 			return it
